@@ -341,9 +341,12 @@ class EventMixin (object):
     handler = handlerOrEID
 
     altered = False
+    if type(handler) == tuple and eventType == None: eventType = handler[0]
+    if eventType is not None and eventType not in self._eventMixin_handlers:
+      # Nobody is listening for this type (e.g., after clearHandlers())
+      return False
     if type(handler) == tuple:
       # It's a type/eid pair
-      if eventType == None: eventType = handler[0]
       handlers = self._eventMixin_handlers[eventType]
       l = len(handlers)
       self._eventMixin_handlers[eventType] = [x for x in handlers
